@@ -31,8 +31,8 @@ def gen_input(r, tier, prop):
         path = R.choice_w(r, [("direct", 4), ("se", 4), ("wkt", 2)])
         inp = {"kind": "voronoi", "spec": spec, "path": path}
         if path == "se":
-            inp["se_opts"] = {"wrap": r.choice([3, 7, 10, 400]), "orphans": r.choice([0, 0, 1, 3]),
-                              "seed": r.randrange(1000)}
+            inp["se_opts"] = {"wrap": r.choice([3, 7, 10, 400]), "orphans": r.choice([0, 0, 1, 3, 5]),
+                              "drop_faces": r.choice([0, 0, 0, 1, 2]), "seed": r.randrange(1000)}
         return inp
     if kind == "tess":
         n = r.randint(8, 36)
@@ -563,10 +563,15 @@ def simplifications(trace):
                 t["inputs"][k]["path"] = "direct"
                 t["inputs"][k].pop("se_opts", None)
                 yield t
-            if inp.get("se_opts", {}).get("orphans"):
-                t = copy.deepcopy(trace)
-                t["inputs"][k]["se_opts"]["orphans"] = 0
-                yield t
+            for key in ("orphans", "drop_faces"):
+                if inp.get("se_opts", {}).get(key):
+                    t = copy.deepcopy(trace)
+                    t["inputs"][k]["se_opts"][key] = 0
+                    yield t
+                    if inp["se_opts"][key] > 1:
+                        t = copy.deepcopy(trace)
+                        t["inputs"][k]["se_opts"][key] = 1
+                        yield t
             # fewer points per interface
             pm = sp.get("pts", {})
             for kk in (0, 1, 2, 4):
